@@ -8,6 +8,7 @@ import (
 	jp "github.com/evanphx/json-patch/v5"
 	"github.com/evanphx/json-patch/v5/xverif/ev"
 	"github.com/evanphx/json-patch/v5/xverif/gen"
+	"github.com/evanphx/json-patch/v5/xverif/laws"
 	"github.com/evanphx/json-patch/v5/xverif/ref"
 	"pgregory.net/rapid"
 )
@@ -128,74 +129,6 @@ func drawReject(t *rapid.T) Case {
 	return Case{A: a.Text(false), B: b.Text(false)}
 }
 
-// checkMinimal: clause (3) of the design, walking P against A and B.
-func checkMinimal(a, b, p *ref.V, path string) error {
-	if p.K != ref.KObj {
-		return fmt.Errorf("%s: patch is not an object", path)
-	}
-	for i, k := range p.Keys {
-		pv := p.Vals[i]
-		av, aok := a.Get(k)
-		bv, bok := b.Get(k)
-		switch {
-		case pv.K == ref.KNull:
-			if !aok || bok {
-				return fmt.Errorf("%s/%s: null in the patch but A has it=%v, B has it=%v", path, k, aok, bok)
-			}
-		case !bok:
-			return fmt.Errorf("%s/%s: the patch mentions a member absent from B", path, k)
-		case aok && av.K == ref.KObj && bv.K == ref.KObj:
-			if ref.Equal(av, bv) {
-				return fmt.Errorf("%s/%s: mentioned although A and B are equal there", path, k)
-			}
-			if err := checkMinimal(av, bv, pv, path+"/"+k); err != nil {
-				return err
-			}
-		default:
-			if aok && ref.Equal(av, bv) {
-				return fmt.Errorf("%s/%s: mentioned although A and B are equal there", path, k)
-			}
-			if !ref.Equal(pv, bv) {
-				return fmt.Errorf("%s/%s: patch value %s is not B's value %s (number literals must be carried over unchanged)", path, k, pv, bv)
-			}
-		}
-	}
-	for _, k := range a.Keys {
-		if _, bok := b.Get(k); !bok {
-			if pv, ok := p.Get(k); !ok || pv.K != ref.KNull {
-				return fmt.Errorf("%s/%s: removed member does not appear as null", path, k)
-			}
-		}
-	}
-	return nil
-}
-
-// objectLaws checks clauses (1)-(3) for one object pair and its patch.
-func objectLaws(a, b, p *ref.V, at, pt []byte) error {
-	if p.K != ref.KObj {
-		return fmt.Errorf("patch %s is not an object", pt)
-	}
-	if got := ref.Merge(a, p); !ref.Equal(got, b) {
-		return fmt.Errorf("applying the patch per RFC 7396 does not give B\n patch: %s\n got:   %s", pt, got)
-	}
-	var m []byte
-	var err error
-	if pn := ev.Safe(func() { m, err = jp.MergePatch(at, pt) }); pn != nil {
-		return pn
-	}
-	if err != nil {
-		return fmt.Errorf("the library's MergePatch rejects the created patch %s: %v", pt, err)
-	}
-	mv, perr := ref.Parse(m)
-	if perr != nil || !ref.Equal(mv, b) {
-		return fmt.Errorf("the library's MergePatch(A, P) does not give B\n patch: %s\n got:   %s", pt, m)
-	}
-	if (len(p.Keys) == 0) != ref.Equal(a, b) {
-		return fmt.Errorf("P is {} exactly when A equals B is violated: P=%s", pt)
-	}
-	return checkMinimal(a, b, p, "")
-}
-
 func classes(a, b *ref.V) (nt bool, cl []string) {
 	nestedDiff := false
 	for i, k := range a.Keys {
@@ -249,7 +182,7 @@ func checkObj(c Case) ev.Verdict {
 		v.Err = fmt.Errorf("patch not well-formed: %q", out)
 		return v
 	}
-	if err := objectLaws(a, b, p, []byte(c.A), out); err != nil {
+	if err := laws.ObjectLaws(a, b, p, []byte(c.A), out, jp.MergePatch); err != nil {
 		v.Err = err
 	}
 	return v
@@ -290,7 +223,7 @@ func checkArr(c Case) ev.Verdict {
 	for i := range a.Arr {
 		nt, _ := classes(a.Arr[i], b.Arr[i])
 		v.NonTrivial = v.NonTrivial || nt
-		if err := objectLaws(a.Arr[i], b.Arr[i], p.Arr[i], []byte(a.Arr[i].Text(false)), []byte(p.Arr[i].Text(false))); err != nil {
+		if err := laws.ObjectLaws(a.Arr[i], b.Arr[i], p.Arr[i], []byte(a.Arr[i].Text(false)), []byte(p.Arr[i].Text(false)), jp.MergePatch); err != nil {
 			v.Err = fmt.Errorf("element %d: %v", i, err)
 			return v
 		}
